@@ -34,6 +34,7 @@ TABLE_NOTE = ('Bounded small-scope domain (constants in the evidence); the abstr
 EXTRA = {
     'C06': ('5/C06', 'Topology.tla defines one resolution function R from (process location, port kind, topology entry, variable) to a hierarchy node for leaf/branch/nested/glob/output ports and path / _path-dictionary topologies; TLC enumerates every well-formed combination and exports R; one real Engine per case: the view must show exactly the values of the nodes R names and after one update exactly those nodes changed, by the sum of the amounts of the variables wired to them.', TABLE_NOTE, TECH_TABLE),
     'C11': ('5/C11', 'Dividers.tla defines every divider as a relation between the mother value and the admissible daughter pairs and states the promised laws (totals conserved, even split, copies, zeros, key partition); TLC checks the laws for all values 0..8 / key sets and exports the relation; real compartments are divided by a real engine (depth 1-2, explicit daughter state, null/no_divide, branch-level and topology/config dividers, float and quantity carriers, two generations, mutable values) and the observed daughters must lie in the relation and be independent afterwards.', TABLE_NOTE, 'TLA+ specification of the divider relations + TLC law checking + validation of observed implementation outcomes against the TLC-computed relation'),
+    'C13': ('5/C13', 'Parallel.tla specifies the command protocol between the engine and the OS worker of a parallel process (send / receive / end with draining / join); TLC checks that a command is never sent while one is pending, nothing is used after its end, end() always terminates and leaves the worker exited, and that the pinned end() violates this. Protocol scenarios (delete / divide / move of a subtree whose parallel process is idle, due in the same batch or has an update in flight; an exception aborting an update; end() once, twice or never before garbage collection) are recorded through guarded hooks in ParallelProcess and validated, with the observed sets of live OS workers, by ParallelTrace.tla. Serial-vs-parallel differential runs compare rows, final state, front and process paths.', 'OS-level behaviour (worker alive / reaped) is observed, not modelled; hangs are detected by a 60 s watchdog; bounded scenario families (seeded).', TECH),
     'C14': ('5/C14', 'Serialize.tla defines serialize/deserialize over abstract value trees (13 leaf classes, list/tuple/set/dict/non-string-key containers) and TLC checks: TypeError exactly for unsupported values and non-string keys, plain output, idempotence, round trip to the canonical form, plain data unchanged; every tree is bound to concrete witnesses and run through serialize_value/deserialize_value, the result abstracted back and compared.', 'TLA+ has no floats: the specification decides dispatch and structure of the codec; fidelity of magnitudes is exercised at a catalogue of witnesses (0, -1.5, 1e300, 5e-324, 2^53-1, nan, +-inf; g, mg/L, fL, mmol/L**2), not for all floats.', TECH_TABLE),
     'C15': ('5/C15', 'InitState.tla (on Topology.tla) gives, for every case and every subset of nodes named in the initial state, the value every declared node must hold (explicit or default), and classifies pairs of declarations of one variable as compatible or not; each is executed through Engine, generate_state, Composite.initial_state/default_state/generate_store.', TABLE_NOTE, TECH_TABLE),
     'C07': ('5/C07', 'Store.tla specifies the hierarchy under structural updates; every tick of every enumerated/random structural history is projected and validated by StoreTrace.tla, including what the director (glob ports on both branches) and an observer (glob port restricted to one declared sub-variable, plain port, output port) saw at the start of the tick; in addition every Topology.tla case is checked for the exact shape of the states dictionary.', 'Bounded: Store.tla constants in the evidence; all timesteps 1 and the director listed first; projection code (vv/store_run.py) is trusted.', TECH),
